@@ -539,6 +539,12 @@ func c09DMCaseT(r *fw.Rec, k int, variant int, nposes int, sample bool, tight bo
 	case 3: // text-mode compaction: lands on this or a smaller size
 		class = "letters"
 		content = fromAlphabet(rng, "abcdefghijklmnopqrstuvwxyz", 1+rng.Intn(ncw))
+		if rng.Bool() {
+			// label-like text: one letter case with digits and the punctuation of the shift sets
+			class = "label-text"
+			alpha := []string{"abcdefghijklmnopqrstuvwxyz0123456789 :;,.-/=", "ABCDEFGHIJKLMNOPQRSTUVWXYZ0123456789 :;,.-/="}[rng.Intn(2)]
+			content = fromAlphabet(rng, alpha, 1+rng.Intn(ncw))
+		}
 	default:
 		class = "digits"
 		content = digitsN(rng, 2*ncw)
